@@ -803,7 +803,7 @@ func runC09(r *Run) {
 	r.Exhaust = true
 	r.Extra["exhaustive_scope"] = "option sweep: v1 = 6 filter result kinds x keepFullObjectsInMemory x group x 3 includeSnapshotsFrom shapes (72 hooks with kubernetes/schedule/validating/mutating/conversion/onStartup contexts), v0 = 6 filter kinds x 4 event lists (24 hooks); the cluster histories are sampled, not enumerated"
 
-	n := r.N(300, 3000)
+	n := r.N(300, 10000)
 	r.Cases(200, n, 12, func(c *Case, rng *Rng) { c09Random(r, c, rng) })
 }
 
